@@ -2,7 +2,7 @@
 C01 — RelativizedPigeonholePrinciple(pigeons, resting_places, holes): axioms 3.1a–e say what
 they are documented to say; satisfiable iff `m ≤ r` and `m ≤ n`.
 -/
-import Lemmas.FamRphp
+import Lemmas.C01Rphp
 namespace Cnfgen.C01
 open Cnfgen Cnfgen.Fam
 
